@@ -287,17 +287,28 @@ def r194(ctx, R):
         if v in (MIN, 'self.MIN_CUSTOM_RESOURCE_CLASS_ID'):
             why.append('MIN')
             continue
-        ifs = C.guarding_ifs(r, f.node)
-        # max_id + 1 in the else-branch of "not max_id or max_id < MIN"
+        # X + 1 is returned only where the branch literals (nested ifs,
+        # merged conditions, negated tests, guard clauses alike) include
+        # X >= MIN
         good = False
-        if v.endswith('+1') and ifs:
+        if v.endswith('+1'):
             base = v[:-2]
-            i, br = ifs[0]
-            t = src(i.test).replace(' ', '')
-            if br == 'orelse' and '%s<%s' % (base, MIN) in t and (
-                    isinstance(i.test, ast.BoolOp) and isinstance(
-                        i.test.op, ast.Or) or t == '%s<%s' % (base, MIN)):
-                good = True
+            from psa import normform
+            nz = normform.Normalizer(None, lambda e: 'MIN' if src(
+                e).replace(' ', '') in (
+                    MIN, 'self.MIN_CUSTOM_RESOURCE_CLASS_ID') else None,
+                inline=False)
+            want = nz.cmp(ast.parse('%s >= MIN_' % base, mode='eval').body)
+            want = nz.cmp(ast.parse('%s >= %s' % (base, MIN),
+                                    mode='eval').body)
+            for e, pol in C.conds(r, f.node, implicit=True):
+                c = nz.cmp(e)
+                if c is None:
+                    continue
+                if not pol:
+                    c = c.negate()
+                if c == want:
+                    good = True
         why.append('%s %s' % (v, 'ok' if good else 'UNGUARDED'))
         okr = okr and good
     R.ob('R19.4', '_get_next_id:at-least-MIN', okr,
